@@ -5,7 +5,7 @@ set -u
 b=$1
 cd /repo
 [ -f /tmp/suite_base.txt ] || { git stash -q 2>/dev/null; /venv/bin/python -m pytest -q -p no:cacheprovider --timeout=900 -q 2>&1 | grep -E "^(FAILED|ERROR)" | sed 's/ - .*//' | sort > /tmp/suite_base.txt; }
-for c in $(git rev-list --reverse HEAD..$b); do
+for c in $(git cherry HEAD $b | grep "^+" | cut -d" " -f2); do
   subj=$(git log -1 --format=%s $c)
   case "$subj" in fix:*) ;; *) echo "SKIP non-fix commit $c $subj"; continue;; esac
   if ! git cherry-pick -x $c >/tmp/pick.log 2>&1; then echo "CONFLICT on $c $subj"; git cherry-pick --abort; exit 1; fi
